@@ -271,23 +271,55 @@ def run(prog, ctx):
                 shape.add((guards, _abstract_result(val)))
         sigs[fi.qual] = tuple(sorted(shape, key=repr))
     ctx.floor("C13.D5", len(sigs), 3, "get_global_error_estimate implementations")
-    ref = sorted(sigs)[0]
-    for q in sorted(sigs):
-        ctx.check(sigs[q] == sigs[ref], "C13.D5", "%s::agrees-with-siblings" % q, prog.func(q).loc(),
-                  "same None / absolute / relative structure as its siblings",
-                  "%s differs from %s in how it derives the error from the reference solution" % (q, ref))
-    # the reference structure itself
-    shape = sigs[ref]
+    # every implementation: None without a reference, the absolute deviation exactly when the CURRENT reference is zero, otherwise the
+    # deviation divided by the reference.  Decided per path on what the path knows about self.reference_solution -- a decision taken from
+    # anything else (a flag computed earlier) goes stale when the reference is installed later (set_reference_solution).
     refattr = ("a", ("n", "self"), "reference_solution")
-    none_ok = any(val == ("c", "None") and ("cmp", "Is", refattr, ("c", "None")) in g for (g, val) in shape)
-    rel = [val for (g, val) in shape if any(x[0] == "op" and x[1] == "Div" and x[2][1] == refattr and x[2][0] == ("op", "Sub", (refattr, ("$R",)))
-                                            for x in subterms(val))]
-    absol = [(g, val) for (g, val) in shape if val != ("c", "None") and not any(x == refattr for x in subterms(val))]
-    zero_guard = any(any(x[0] == "cmp" and x[1] == "Eq" and any(y[0] == "call" and y[2] and y[2][0] == refattr for y in (x[2], x[3])) for x in g)
-                     for (g, val) in absol)
-    ctx.check(none_ok and bool(rel) and bool(absol) and zero_guard, "C13.D5", "%s::reference-structure" % ref, prog.func(ref).loc(),
-              "None without a reference, absolute deviation for a zero reference, else deviation divided by the reference",
-              "the global error estimate no longer has the structure None / absolute (zero reference) / (reference - result) / reference")
+
+    def about_zero(f_):
+        """'zero' / 'nonzero' if the fact compares a norm (any call) of the reference with 0, else None"""
+        if f_[0] == "cmp" and f_[1] in ("Eq", "NotEq"):
+            sides = (f_[2], f_[3])
+            if any(y[0] == "call" and y[2] and y[2][0] == refattr for y in sides) and any(y in (("c", "0"), ("c", "0.0")) for y in sides):
+                return "zero" if f_[1] == "Eq" else "nonzero"
+        return None
+
+    def kind_of(val):
+        if val == ("c", "None"):
+            return "none"
+        for x in subterms(val):
+            if x[0] == "op" and x[1] == "Div" and len(x[2]) == 2:
+                num, den = x[2]
+                if refattr in list(subterms(den)) and refattr in list(subterms(num)) and ("$R",) in list(subterms(num)):
+                    return "relative"
+        if ("$R",) in list(subterms(val)):
+            return "absolute"
+        return "other"
+    for q in sorted(sigs):
+        problems = []
+        kinds = set()
+        for (g, val) in sigs[q]:
+            k_ = kind_of(val)
+            kinds.add(k_)
+            zs = {about_zero(f_) for f_ in g} - {None}
+            isnone = ("cmp", "Is", refattr, ("c", "None")) in g
+            flags = sorted({show(f_) for f_ in g for y in subterms(f_) if y[0] == "a" and y[1] == ("n", "self") and y[2] != "reference_solution"
+                            and refattr not in list(subterms(f_))})
+            if k_ == "none" and not isnone:
+                problems.append("returns None although a reference may be present")
+            elif k_ == "absolute" and zs != {"zero"}:
+                problems.append("returns the absolute deviation on a path that has not tested the current reference for zero (%s)"
+                                % (("decided by " + ", ".join(flags)) if flags else "no such test"))
+            elif k_ == "relative" and zs != {"nonzero"}:
+                problems.append("divides by the reference on a path that has not excluded a zero reference (%s)"
+                                % (("decided by " + ", ".join(flags)) if flags else "no such test"))
+            elif k_ == "other":
+                problems.append("returns `%s`, which is neither the absolute nor the relative deviation of the result" % show(val))
+        if not problems and not {"none", "absolute", "relative"} <= kinds:
+            problems.append("lacks one of the three cases (found %s)" % sorted(kinds))
+        ctx.check(not problems, "C13.D5", "%s::agrees-with-siblings" % q, prog.func(q).loc(),
+                  "None without a reference, absolute deviation for a zero reference, else deviation divided by the reference",
+                  "%s: %s" % (q, "; ".join(problems[:2])))
 
 
 def check_point_count(prog, ctx):
